@@ -517,7 +517,10 @@ main(int argc, char **argv) {
   // Add all of the .h files we are explicitly including to the parser.
   for (i = 1; i < argc; ++i) {
     Filename filename = Filename::from_os_specific(argv[i]);
+    // Included files are looked up in this set by their canonical name, so
+    // record the canonical name (make_absolute() keeps symbolic links).
     filename.make_absolute();
+    filename.make_canonical();
     parser._explicit_files.insert(filename);
   }
 
